@@ -1,6 +1,7 @@
 CFG = dict(
     lean_modules=["SaramaVerif.Model.Producer", "SaramaVerif.Props.C01", "SaramaVerif.Model.SyncShim", "SaramaVerif.Props.C01sync"],
     lean_support=["SaramaVerif.Driver.ProducerTrace"],
+    confirm_scenario_diffs=True,
     model="C01",
     overlay=["sim", "c01"],
     required_theorems=["Props.C01.init_inv", "Props.C01.step_inv", "Props.C01.run_inv", "Props.C01.reachable_inv",
